@@ -59,17 +59,19 @@ def expected_body(scr):
     return body, meta
 
 
-def judge_formulas(obs_seq, model_seq, scr, tofu, h):
+def judge_formulas(obs_seq, model_seq, scr, tofu, h, labels=None):
     """Evaluate the property formulas on the *observed* execution (observation-level): returns set of falsified names."""
     bad = set()
     rec = scr["rec"]
-    for o in obs_seq:
+    for k_, o in enumerate(obs_seq):
+        # before the Verify step the caller cannot have been told anything yet (PromptOnClose speaks of verified calls)
+        verified = tofu == "off" or labels is None or any(a == "Verify" for a, _ in labels[:k_])
         if o["sentReq"] and tofu in ("changed", "unreadable"):
             bad.add("ChangedGetsNothing")
             bad.add("NothingBeforeVerify")
         if tofu in ("changed", "unreadable") and o["caller"] == "response":
             bad.add("ChangedGetsNothing")
-        if o["lost"] and o["caller"] == "waiting" and tofu not in ("changed", "unreadable"):
+        if o["lost"] and o["caller"] == "waiting" and tofu not in ("changed", "unreadable") and verified:
             bad.add("PromptOnClose")
     return bad
 
@@ -178,11 +180,12 @@ def main(pid, rep=None, finish=True):
             h.close()
             mismatch = got != want
             if mismatch or extra_bad:
-                bad = judge_formulas([o for o in obs_seq], None, scr, cfg["tofu"], h) | extra_bad
+                bad = judge_formulas([o for o in obs_seq], None, scr, cfg["tofu"], h, labels) | extra_bad
                 # a caller outcome outside the script's Expected set is SegIndep / Faithful territory
                 if err is None and mismatch and caller_class(got["caller"]) != caller_class(want["caller"]) and got["caller"] != "waiting":
                     bad.add("SegIndep")
-                if err is None and mismatch and got["caller"] == "waiting" and want["caller"] != "waiting" and got["lost"]:
+                if err is None and mismatch and got["caller"] == "waiting" and want["caller"] != "waiting" and got["lost"] and \
+                        (cfg["tofu"] == "off" or any(a == "Verify" for a, _ in labels)):
                     bad.add("PromptOnClose")
                 mine = sorted(bad & own)
                 desc = "script=%s tofu=%s ep=%s actions=%s: real %s, model %s %s" % (
@@ -333,8 +336,12 @@ def classified_script(rnd, k):
     meta = mime + ("; lang=en" if rnd.random() < 0.3 else "") + ((rnd.choice(["; charset=%s", ";charset=%s", "; CHARSET=%s", "; charset=\"%s\""]) % cs) if cs is not None else "")
     if kind == "ok":
         header = ("%d %s" % (st, meta)).encode("utf-8")
+        if not (10 <= st <= 99):
+            kind = "badStatus"           # one or three digits: not a status at all
     elif kind == "badStatus":
-        header = (rnd.choice(["2x", "", "ab", "2.0", "0x14", "--"]) + " " + meta).encode("utf-8")
+        # not two ASCII digits - including everything int() would read as a number all the same
+        header = (rnd.choice(["2x", "", "ab", "2.0", "0x14", "--", "+20", "2_0", "020", "\uff12\uff10", "\u0662\u0660", "\t20", "20\n", "\u00a020", "-20", "00000000000000000031"])
+                  + " " + meta).encode("utf-8")
     else:
         header = ("%d %s" % (st, meta)).encode("utf-8") + rnd.choice([b"\xff", b"\xc3", b"\xfe\xff"])
     body = bytes(rnd.getrandbits(8) for _ in range(rnd.choice([0, 1, 5, 40, 300]))) if rnd.random() < 0.4 else \
